@@ -184,7 +184,7 @@ def rec_obs(tier, seed):
                             'MODE': 'RAID_MODE_CAUCHY' if mode == 'C' else 'RAID_MODE_VANDERMONDE'},
                       unwind=132, solver=KISSAT, incl_first=['include/noasm'], timeout=3000, mem=10, cost=60, tier='quick' if quick else 'thorough', functions=recf,
                       note='nd=%d, %d parity blocks, lost %s, parities used %s; unused parities alias the last lost block and must come back untouched' % (nd, npt, ids, ips)))
-    for n in (1, 2):
+    for n in (1,):  # n = 2 did not finish in 85 minutes (kissat) and is not claimed
         obs.append(Ob('rec.invert.n%d' % n, R, 'h_invert', ['raid/raid.c', 'raid/tables.c'], defs={'INV_N': n}, unwind=8, solver=KISSAT, timeout=6000, mem=8, cost=40, tier='quick' if n == 1 else 'thorough',
                       functions=['raid_invert (raid/raid.c)', 'mul (raid/gf.h)', 'inv (raid/gf.h)'], kind='bounded', bound='n = %d (n <= 6 in the code)' % n,
                       note='every %dx%d matrix without zero pivot' % (n, n)))
@@ -534,12 +534,12 @@ PROPS['C03'].update(
     explanation='(1) MDS on the real tables: every 1x1 and 2x2 minor of the 6x251 Cauchy and 3x251 power matrices is non-singular for ALL row/column pairs (symbolic indices), every 3x3 minor for ALL column triples of each of the 20 row triples and of the power matrix (thorough tier only: 6-15 min per row triple) - orders 4..6 are NOT discharged (3.8e11 minors; the structural Cauchy argument needs mathematics outside the tool). '
                 '(2) raid_rec dispatch: for EVERY nd <= 251, np <= 6 and sorted failure list (all symbolic), the decoder slot, id[], ip[] (first surviving parities) and the regenerated parity range are exactly as specified, decoders replaced by recording stubs. '
                 '(3) raid_delta_gen and recovery through parity 0 (raid_rec1_int8 -> raid_rec1of1) restore / compute exactly the specified bytes and leave every other block, unused (aliased) parities, the zero block and the pointer vector untouched, for small concrete geometries with all contents symbolic. '
-                '(4) raid_invert: M*V == I for every 1x1 / 2x2 matrix without zero pivot. (5) raid_sort / raid_insert: sorted permutation for all inputs, n <= 6; combination_first/next: exactly C(n,r) strictly increasing tuples in lexicographic order for the listed (r, n). '
+                '(4) raid_invert for 1x1 matrices only (2x2 with symbolic entries did not finish in 85 minutes and is not claimed). (5) raid_sort / raid_insert: sorted permutation for all inputs, n <= 6; combination_first/next: exactly C(n,r) strictly increasing tuples in lexicographic order for the listed (r, n). '
                 'The reconstruction loops that read T[..][x] through row pointers are not under an obligation (cbmc defect, see assumptions).',
     trusted_base=['spec/gf_spec.h', 'include/noasm/config.h (dispatch tables without inline assembly)'],
     assumptions=[SIMD_NOTE, CBMC_BUG, 'MDS orders 4..6 rest on the Cauchy-matrix theorem (Roth 2006) applied to the structure proved by TAB-CAUCHY: mathematics outside the tool, not a discharged obligation',
                  'geometries of the data-path obligations are small and concrete (nd <= 4, size 64); they are complete for those geometries only'],
-    not_covered=['T[..][x] reconstruction loops of raid_rec1_int8 (ip != 0), raid_rec2_int8, raid_recX_int8, raid_rec2of2_int8', 'raid_validate / raid_check / raid_scan (same row-pointer reads)', 'SSSE3/AVX2 decoders (inline assembly)', 'raid_invert for n >= 3'])
+    not_covered=['T[..][x] reconstruction loops of raid_rec1_int8 (ip != 0), raid_rec2_int8, raid_recX_int8, raid_rec2of2_int8', 'raid_validate / raid_check / raid_scan (same row-pointer reads)', 'SSSE3/AVX2 decoders (inline assembly)', 'raid_invert for n >= 2 (it is exercised, not proved, through the small-geometry obligations)'])
 PROPS['C09'].update(
     explanation='Memory safety and exact accept/reject behaviour of the content-file decoding primitives (sgetb32, sgetb64, sgetble32, sgetbs, sread, sgetc, sgetc_uncached, sfill) for EVERY byte string (12 bytes visible, a 64-bit varint has at most 10) under EVERY chunking by read() and stream buffer size 1..4 (STREAM_SIZE is a run-time variable of the real code): cbmc pointer/bounds/overflow/shift obligations on the real cmdline/stream.c plus equality with an arithmetic varint specification. '
                 'This found a genuine defect (sgetbs length 0xffffffff, out-of-bounds write), repaired by a fix: commit (known_findings.txt). CRC-32C: tables, linearity lemmas and crc32c_gen* for short lengths. Record level: the Q-record validity/auto-configuration region (found and fixed an out-of-bounds defect). state_write: typestate contract write -> verify (with the checksum computed while writing) -> rename. The other record decoders are not under contract.',
